@@ -738,8 +738,7 @@ def forall(lo, hi, fn):
         return r
     st = cur()
     if st.capture is None:
-        r0, _m = st._check(_z(lo) < _z(hi), 1000)
-        if r0 == z3.unsat:
+        if st.qf_refutes(_z(lo) < _z(hi)):
             return True  # empty range on this path
     j = z3.Int(st.fresh_name("q"))
     saved = st.capture
